@@ -2,12 +2,12 @@ SPECIFICATION Spec
 CONSTANT KernelCodes = {101, 303, 901}
 CONSTANT StrideCodes = {11, 22}
 CONSTANT IfmDepths = {3, 40}
-CONSTANT GridW = {1, 2, 4, 5, 8, 16, 64}
-CONSTANT GridH = {1, 2, 3, 4, 8, 16, 32}
-CONSTANT GridD = {1, 2, 3, 4, 8, 16}
-CONSTANT ShapeH = {1, 2, 5, 16, 33}
-CONSTANT ShapeW = {1, 3, 16, 65}
-CONSTANT ShapeD = {1, 3, 8, 17, 64, 130}
+CONSTANT GridW = {1, 2, 5, 8, 16, 64}
+CONSTANT GridH = {1, 2, 3, 8, 32}
+CONSTANT GridD = {1, 2, 3, 16}
+CONSTANT ShapeH = {1, 5, 17}
+CONSTANT ShapeW = {1, 3, 18}
+CONSTANT ShapeD = {1, 8, 17, 130}
 CONSTANT Tighten = 1
 INVARIANT LayoutValid
 INVARIANT CandidatesLegal
